@@ -53,7 +53,7 @@ theorem C07_connect_acceptor_keeps_store (s : Sess) (hi : s.cfg.initiator = fals
     number and everything stored are kept -/
 theorem C07_connect_initiator_continues (s : Sess) (hc : s.st.connected = false) (ht : s.st.sessionTime = true)
     (hi : s.cfg.initiator = true) (hcfg : NoResetFlags s.cfg) :
-    let logon : OutMsg := { logonMsg (connectBase s) false with seq := s.store.sender }
+    let logon : OutMsg := { stamp (connectBase s) (logonMsg (connectBase s) false) with seq := s.store.sender }
     let s' := (connect s).1
     s'.st = .logon ∧ s'.store.target = s.store.target ∧ s'.store.sender = s.store.sender + 1 ∧ s'.store.epoch = s.store.epoch
     ∧ s'.store.msgs = (if s.cfg.persist then (s.store.sender, logon) :: s.store.msgs else s.store.msgs)
@@ -85,7 +85,7 @@ theorem C07_logon_reset_received (s : Sess) (m : InMsg) (hi : s.cfg.initiator = 
     (h5 : (s.cfg.bs == 5 && !m.f.has 1137) = false) (hg : GateMsg s.cfg m) (ht : TimeGate s m)
     (hv : callbackVerdict m = none) (hf : logonResetFlag m = true) (hsr : s.sentReset = false) (h34 : getInt m 34 = .val 1) :
     ∃ base : Sess, base.cfg = s.cfg ∧
-    let reply : OutMsg := { logonMsg base true with seq := 1 }
+    let reply : OutMsg := { stamp base ((logonMsg base true).inReplyTo m) with seq := 1 }
     let r := logonFixMsgIn s m
     r.2 = .inSession ∧ r.1.store.sender = 2 ∧ r.1.store.target = 2 ∧ r.1.sentReset = false
     ∧ r.1.store.msgs = (if s.cfg.persist then [(1, reply)] else [])
@@ -102,7 +102,7 @@ theorem C07_logon_reset_received (s : Sess) (m : InMsg) (hi : s.cfg.initiator = 
     store was reset for it (next outbound 2, expected inbound 1), `sentReset` is raised -/
 theorem C07_logon_reset_sent (s : Sess) (hc : s.st.connected = false) (ht : s.st.sessionTime = true)
     (hi : s.cfg.initiator = true) (hr : shouldSendReset (connectBase s) = true) :
-    let logon : OutMsg := { logonMsg (connectBase s) true with seq := 1 }
+    let logon : OutMsg := { stamp (connectBase s) (logonMsg (connectBase s) true) with seq := 1 }
     let s' := (connect s).1
     s'.st = .logon ∧ s'.sentReset = true ∧ s'.store.sender = 2 ∧ s'.store.target = 1
     ∧ s'.store.msgs = (if s.cfg.persist then [(1, logon)] else [])
@@ -160,7 +160,7 @@ theorem C07_reset_time_crossing (rs : Nat) (last now : Int) (h : rs < 86400) :
     the reset and the save.  No hypothesis on role, BeginString, counters, queue or state beyond "connected". -/
 theorem C07_reset_time_sends_reset_logon (s : Sess) (now last : Int) (rs : Nat) (hrs : s.cfg.resetSeqTime = some rs)
     (hl : s.lastCheckedReset = some last) (hc : s.st.connected = true) (hx : crossedReset rs last now = true) :
-    let logon : OutMsg := { logonMsg s true with seq := 1 }
+    let logon : OutMsg := { stamp s (logonMsg s true) with seq := 1 }
     let s' := checkResetTime s now
     s'.store.sender = 2 ∧ s'.store.target = 1 ∧ s'.store.msgs = (if s.cfg.persist then [(1, logon)] else [])
     ∧ s'.store.epoch = s.store.epoch + 1 ∧ s'.sentReset = true ∧ s'.st = s.st ∧ s'.lastCheckedReset = some now
@@ -177,7 +177,7 @@ theorem C07_reset_time_sends_reset_logon (s : Sess) (now last : Int) (rs : Nat) 
     carrying 141=Y; afterwards the counters are (2, 1) -/
 theorem C07_reset_time_step (s : Sess) (now last : Int) (rs : Nat) (hrs : s.cfg.resetSeqTime = some rs)
     (hl : s.lastCheckedReset = some last) (hon : s.st.loggedOn = true) (ho : s.out = true) (hx : crossedReset rs last now = true) :
-    let logon : OutMsg := { logonMsg s true with seq := 1 }
+    let logon : OutMsg := { stamp s (logonMsg s true) with seq := 1 }
     (step s (.resetTime now)).2.1 = [.reset, (if s.cfg.persist then .saved 1 "A" (resendable logon) else .incS), .wire logon]
     ∧ (step s (.resetTime now)).1.store.sender = 2 ∧ (step s (.resetTime now)).1.store.target = 1
     ∧ (step s (.resetTime now)).1.sentReset = true ∧ (141, "Y") ∈ logon.f := by
@@ -191,7 +191,11 @@ theorem C07_reset_time_step (s : Sess) (now last : Int) (rs : Nat) (hrs : s.cfg.
   refine ⟨?_, q1, q2, q5, q10⟩
   show (checkResetTime s.clearLog now).log.reverse = _
   rw [hlog]
-  simp [Sess.clearLog, logon, logonMsg]
+  have e1 : stamp s.clearLog (logonMsg s.clearLog true) = stamp s (logonMsg s true) := rfl
+  have e2 : s.clearLog.cfg = s.cfg := rfl
+  have e3 : s.clearLog.log = [] := rfl
+  rw [e1, e2, e3]
+  simp [logon]
 
 /-- **… and only then.**  ResetSeqTime not configured, or the first check (nothing recorded yet), or no connection, or the
     reset instant not crossed: `CheckResetTime` sends nothing and leaves the store, both counters, the queue, `sentReset`
